@@ -188,14 +188,26 @@ def rh (g : Graph α) (a : α) (seeds : List α) (nIter : Nat) : List α :=
 def bicgstabResidual (g : Graph α) (a : α) (seeds : List α) (x : List α) (i : Nat) : α :=
   (x.getD i 0 - surferA g a x i) - (surferB g a seeds).getD i 0
 
-/-- `scores, info = bicgstab(I - rso.a, rso.b, atol=tol, x0=rso.b); if info != 0: scores = spsolve(I - rso.a, rso.b)` :
+/-- `np.linalg.norm(matrix.dot(scores) - rso.b) ** 2` : the squared ℓ2 norm of the true residual -/
+def bicgstabRes2sq (g : Graph α) (a : α) (seeds : List α) (x : List α) : α :=
+  ((List.range g.n).map fun i => bicgstabResidual g a seeds x i * bicgstabResidual g a seeds x i).sum
+
+/-- the test of `get_pagerank` on what BiCGSTAB returned: `info == 0` and `residual <= rule` where
+    `rule = max(tol, 1e-5 * norm(rso.b))` (a parameter, `≥ 0`); the two norms are compared through their squares -/
+def bicgstabAccept (g : Graph α) (a : α) (seeds : List α) (info : Int) (rule : α) (iter : List α) : Bool :=
+  info == 0 && !(decide (rule * rule < bicgstabRes2sq g a seeds iter))
+
+/-- `scores, info = bicgstab(I - rso.a, rso.b, atol=tol, x0=rso.b)`;
+    `if info != 0 or not residual <= rule: scores = spsolve(I - rso.a, rso.b)` :
     `iter` is what BiCGSTAB returned, `direct` what the direct solver returned -/
-def bicgstabScores (info : Int) (iter direct : List α) : List α := if info = 0 then iter else direct
+def bicgstabScores (g : Graph α) (a : α) (seeds : List α) (info : Int) (rule : α) (iter direct : List α) : List α :=
+  if bicgstabAccept g a seeds info rule iter then iter else direct
 
 /-- `solver='bicgstab'` : the scores above, then `scores / scores.sum()` -/
 def bicgstabBranch (n : Nat) (ext : List α) : List α := normalizeV n ext
 
-/-- `solver='lanczos'` : `_, scores = eigs(rso, k=1, tol=tol, v0=rso.b)`, `abs(scores.flatten().real)`, then `/ sum` -/
+/-- `solver='lanczos'` : `_, scores = eigs(rso, k=1, tol=tol, v0=rso.b)` (for `n < 3`, where ARPACK cannot be called: the
+    eigenvector of `np.linalg.eig` for the eigenvalue of largest real part), `abs(scores.flatten().real)`, then `/ sum` -/
 def lanczosBranch (n : Nat) (ext : List α) : List α := normalizeV n (tab n fun i => absS (ext.getD i 0))
 
 /-! ### D-iteration kernel (`linalg/diteration.pyx : diffusion`) -/
@@ -263,6 +275,11 @@ def argsortDesc (r : List α) : List Nat :=
 def pushInit (n : Nat) (rev : Graph α) (deg : List α) (seeds : List α) (a : α) : List α :=
   tab n fun v =>
     ((rev.row v).foldl (fun r p => r + 1 / deg.getD p.1 0) 0) * ((1 - a) * a * (1 + seeds.getD v 0))
+
+/-- `1 / degrees[neighbor]` and `… / degrees[vertex]` are divisions by the `int32` degree: a node with a stored out-entry
+    whose degree is 0 (out-weight below 1, truncated) makes the kernel raise ZeroDivisionError -/
+def pushRaises (g : Graph α) (deg : List α) : Bool :=
+  (List.range g.n).any fun u => !(g.row u).isEmpty && !(decide (deg.getD u 0 < 0) || decide (0 < deg.getD u 0))
 
 structure PState (α : Type) where
   scores : List α
